@@ -9,7 +9,7 @@ var universe16 = []string{"d/x", "d/y/z", "ad/x", "d-old", "d.x", "d0", "d", "D/
 
 func c06Trans(c *Ctx, pre *Node, st Step, res *Result, post *State) ([]Violation, bool) {
 	cmd := st.Cmd()
-	if cmd != "rm" && cmd != "restore" && cmd != "add" {
+	if cmd != "rm" && cmd != "restore" && cmd != "add" && cmd != "reset" {
 		return nil, true
 	}
 	pa, qa := pre.Abs(), post.Abs()
@@ -68,6 +68,8 @@ func checkC06(e *RunEnv) *CheckResult {
 			}
 			pre = append(pre, Run(append([]string{"add"}, topLevel(set)...)...))
 			nt := nameSetTags(set)
+			// the staging area rewritten from a commit must be canonical as well
+			cs = append(cs, Case{Base: base, BaseName: "S0", BaseSeed: seedS0(), Steps: append(append([]Step{}, pre...), Run("commit", "-m", "m"), Run("reset", "--mixed", "HEAD@{0}").WithTags(nt...), Run(append([]string{"add"}, topLevel(set)...)...).WithTags(nt...))})
 			for _, q := range queries {
 				for _, cmd := range []string{"rm", "restore", "add"} {
 					steps := append(append([]Step{}, pre...), Run(cmd, q).WithTags(append(append([]string{}, nt...), "judge")...))
